@@ -18,6 +18,17 @@ func init() { extractors = append(extractors, extractLoop) }
 // (inside other control flow, by a non-boolean expression) makes the extraction fail.
 // Around it, structural facts about the snapshot used for pruning and about refreshLoop.
 
+// loopAlias maps the source's name of the per-iteration local flag (declared `x := false` at the top
+// level of the loop body) to the model's name `prune`, so that renaming it is not a broken tie
+var loopAlias = map[string]string{}
+
+func canon(name string) string {
+	if a, ok := loopAlias[name]; ok {
+		return a
+	}
+	return name
+}
+
 var loopTracked = map[string]string{
 	"tableInitialized": "tableInitialized",
 	"externalPrune":    "externalPrune",
@@ -40,11 +51,11 @@ func (t *loopTr) line(format string, args ...any) {
 func boolExpr(e ast.Expr) string {
 	switch x := e.(type) {
 	case *ast.Ident:
-		switch x.Name {
+		switch canon(x.Name) {
 		case "true", "false":
 			return x.Name
 		case "tableInitialized", "externalPrune", "prune":
-			return "v." + x.Name
+			return "v." + canon(x.Name)
 		}
 	case *ast.ParenExpr:
 		return "(" + boolExpr(x.X) + ")"
@@ -89,7 +100,7 @@ func assignsTracked(n ast.Node) bool {
 		case *ast.AssignStmt:
 			for _, l := range s.Lhs {
 				if id, ok := l.(*ast.Ident); ok {
-					if _, ok := loopTracked[id.Name]; ok {
+					if _, ok := loopTracked[canon(id.Name)]; ok {
 						found = true
 					}
 				}
@@ -122,11 +133,11 @@ func (t *loopTr) trackedAssign(st ast.Stmt) bool {
 	if !ok {
 		return false
 	}
-	field, ok := loopTracked[id.Name]
+	field, ok := loopTracked[canon(id.Name)]
 	if !ok {
 		return false
 	}
-	if id.Name == "tableInitWatch" {
+	if canon(id.Name) == "tableInitWatch" {
 		if exprString(as.Rhs[0]) != "nil" {
 			fail("reconciler/reconciler.go: reconcileLoop: tableInitWatch is assigned %q inside the loop (only nil is understood)", exprString(as.Rhs[0]))
 		}
@@ -242,6 +253,24 @@ func extractLoop(repo string, facts Facts) (string, string) {
 	}
 	if _, ok := init["tableInitWatch"]; !ok {
 		fail("%s: reconcileLoop: tableInitWatch is not initialised before the loop", file)
+	}
+
+	// the per-iteration local flag, whatever it is called
+	loopAlias = map[string]string{}
+	var locals []string
+	for _, st := range loop.Body.List {
+		if as, ok := st.(*ast.AssignStmt); ok && as.Tok == token.DEFINE && len(as.Lhs) == 1 && len(as.Rhs) == 1 {
+			if id, ok := as.Lhs[0].(*ast.Ident); ok {
+				if r := exprString(as.Rhs[0]); r == "false" || r == "true" {
+					locals = append(locals, id.Name)
+				}
+			}
+		}
+	}
+	if len(locals) == 1 && locals[0] != "prune" {
+		if _, clash := loopTracked[locals[0]]; !clash {
+			loopAlias[locals[0]] = "prune"
+		}
 	}
 
 	// --- the loop body
